@@ -4,6 +4,7 @@ import contextlib
 import io
 import re
 import traceback
+import warnings
 
 from hypothesis import strategies as st
 
@@ -368,7 +369,9 @@ class ReOracle:
         except Unsupported as e:
             raise Discard("outside supported syntax: %s" % e)
         try:
-            self.rx = re.compile(pattern)
+            with warnings.catch_warnings():
+                warnings.simplefilter("ignore", FutureWarning)
+                self.rx = re.compile(pattern)
         except re.error as e:
             raise Discard("re rejects pattern: %s" % e)
         self.expect_error = None
@@ -421,6 +424,7 @@ def check_strings(strings):
 
 
 STATE_CAP = 48
+SIZE_CAP = 600
 
 
 def flat_alternatives(expr, out):
@@ -432,34 +436,52 @@ def flat_alternatives(expr, out):
     return out
 
 
-def explosion(pattern):
+def node_count(expr):
+    n = 1
+    for attr in ("lhs", "rhs", "expr"):
+        sub = getattr(expr, attr, None)
+        if sub is not None:
+            n += node_count(sub)
+    return n
+
+
+def explosion(pattern, measure=None):
     """compile() explores the derivatives of the expression with a work list and has no bound of its
-    own.  Walk the same derivatives first: more than STATE_CAP distinct ones for these small
-    expressions (legitimate automata here have at most a few dozen states) means compile() would
-    not terminate in any useful time; reported without calling it."""
+    own.  Walk the same derivatives first: more than STATE_CAP distinct ones, or one with more than
+    SIZE_CAP nodes (legitimate automata for the expressions generated here have at most a few dozen
+    states of a few dozen nodes, see the class histogram in the evidence) means compile() would not
+    terminate in any useful time; that is reported without calling it."""
     from ppci.lang.tools.regex import parse
 
     expr = parse(pattern)
     seen = {expr}
     todo = [expr]
+    biggest = 0
     while todo:
         state = todo.pop()
         for dc in state.derivative_classes():
             if not dc:
                 continue
             nxt = state.derivative(dc.ranges[0][0])
-            if nxt not in seen:
-                seen.add(nxt)
-                todo.append(nxt)
-                if len(seen) > STATE_CAP:
-                    alts = flat_alternatives(nxt, [])
-                    dup = len(alts) - len(set(alts))
-                    return Failure(
-                        "explosion",
-                        "compile(%r) does not terminate: more than %d distinct derivative states (newest one is an "
-                        "alternation of %d operands, %d of them repeated)" % (pattern, STATE_CAP, len(alts), dup),
-                        duplicates=dup,
-                    )
+            size = node_count(nxt)
+            biggest = max(biggest, size)
+            if size <= SIZE_CAP and nxt in seen:
+                continue
+            seen.add(nxt)
+            todo.append(nxt)
+            if len(seen) > STATE_CAP or size > SIZE_CAP:
+                alts = flat_alternatives(nxt, [])
+                dup = len(alts) - len(set(alts))
+                return Failure(
+                    "explosion",
+                    "compile(%r) does not terminate: the derivative states keep growing (%d states so far, newest one "
+                    "has %d nodes and is an alternation of %d operands, %d of them repeated)"
+                    % (pattern, len(seen), size, len(alts), dup),
+                    duplicates=dup,
+                )
+    if measure is not None:
+        measure["derivative_states<=%d" % next(b for b in (2, 4, 8, 16, 32, STATE_CAP) if len(seen) <= b)] += 1
+        measure["largest_derivative_nodes<=%d" % next(b for b in (8, 32, 128, SIZE_CAP) if biggest <= b)] += 1
     return None
 
 
@@ -475,7 +497,7 @@ def compile_failure(what, e, tb):
     )
 
 
-def evaluate(case, stats=None, oracle_cls=ReOracle):
+def evaluate(case, stats=None, oracle_cls=ReOracle, measure=None):
     """Evaluate one case {pattern, alphabet, maxlen, strings?} or {tokens, ...}.
     Returns None or a Failure.  Counts evaluated (pattern, string) pairs into stats."""
     import sys
@@ -493,7 +515,7 @@ def evaluate(case, stats=None, oracle_cls=ReOracle):
     from ppci.lang.tools import regex as pregex
 
     try:
-        boom = explosion(pattern)
+        boom = explosion(pattern, measure if measure is not None else (None if stats is None else stats.hist))
         if boom is not None:
             if stats is not None:
                 stats.evaluations += 1
@@ -815,14 +837,17 @@ def class_atom(draw):
     n = draw(st.integers(1, 3))
     items = []
     for _ in range(n):
+        # (a doubled punctuation character such as '||' makes re warn about future set operations)
         if draw(st.integers(0, 2)) == 0:
             grp = draw(st.sampled_from(["abcde", "xyz", "0123456789"]))
             i = draw(st.integers(0, len(grp) - 2))
             j = draw(st.integers(i + 1, len(grp) - 1))
             items.append("%s-%s" % (grp[i], grp[j]))
         else:
-            items.append(draw(st.sampled_from(CLASS_PLAIN + CLASS_ESC)))
-    return "[" + "".join(items) + "]"
+            c = draw(st.sampled_from(CLASS_PLAIN + CLASS_ESC))
+            if c not in items:
+                items.append(c)
+    return "[" + "".join(items or ["a"]) + "]"
 
 
 def atom_strategy(allow_dot):
@@ -938,7 +963,7 @@ def _hyp_worker(arg):
     stats = Stats()
 
     def prop(case):
-        f = evaluate(case, None)
+        f = evaluate(case, None, measure=stats.hist)
         if "tokens" in case:
             nontriv = True
             key = ("t", tuple(map(tuple, case["tokens"])), tuple(case["strings"]))
